@@ -199,6 +199,44 @@ def scen_children():
         p.join(10)
     if p.exitcode != -signal.SIGTERM:
         out.append('child killed by SIGTERM: exitcode %r' % (p.exitcode,))
+    out += scen_foreign_start()
+    return out
+
+
+def scen_foreign_start():
+    """start() by a process that did not create the object: a plain os.fork() child (which still carries the creator's
+    module state) tries to start an unstarted process object it inherited; nothing is launched (_Popen is a stub)"""
+    out = []
+    from billiard import get_context
+
+    class Stub:
+        sentinel = None
+        pid = 1
+        returncode = None
+
+        def __init__(self, obj):
+            pass
+
+        def poll(self, *a):
+            return None
+    victim = get_context('fork').Process(target=t_return)
+    victim._Popen = Stub
+    pid = os.fork()
+    if pid == 0:
+        try:
+            try:
+                victim.start()
+                os._exit(3)
+            except AssertionError:
+                os._exit(0)
+        finally:
+            os._exit(4)
+    _, sts = os.waitpid(pid, 0)
+    if os.WEXITSTATUS(sts) != 0:
+        out.append('a forked child (not the creator) was allowed to start() an inherited process object (child exit %d)'
+                   % os.WEXITSTATUS(sts))
+    if victim._popen is not None:
+        out.append('the refused start left a Popen object behind')
     return out
 
 
